@@ -1,13 +1,23 @@
 #!/bin/sh
 # run checks against a seeded change in its own scratch worktree (leaves /repo untouched, so several can run at once)
-# usage: seedrun_wt.sh <ID> <Cxx...>      worktree /tmp/seed/<ID> with _seed/patch.diff
-ID=$1; shift; D=/tmp/seed/$ID
+# usage: seedrun_wt.sh <ID> <Cxx...>
+#   the worktree /tmp/seed/<ID> with _seed/patch.diff is used when it exists (a sub-agent's fresh result);
+#   otherwise a temporary worktree is made from /verif/seeded/<ID>/patch.diff and removed afterwards
+ID=$1; shift; D=/tmp/seed/$ID; TEMP=0
+if [ ! -d $D ]; then
+  [ -f /verif/seeded/$ID/patch.diff ] || { echo "SEEDRUN $ID: no such seed"; exit 2; }
+  D=/tmp/seed/wt_$ID; TEMP=1; mkdir -p /tmp/seed
+  git -C /repo worktree add -q --detach $D HEAD || exit 2
+  mkdir -p $D/_seed; cp /verif/seeded/$ID/patch.diff $D/_seed/patch.diff
+fi
 cd $D || exit 2
 git checkout -q -- include src 2>/dev/null
 git checkout -q --detach main || exit 2
-git apply _seed/patch.diff || { echo "SEEDRUN $ID: patch does not apply to main"; exit 2; }
+git apply _seed/patch.diff || { echo "SEEDRUN $ID: patch does not apply to main"; [ $TEMP = 1 ] && git -C /repo worktree remove --force $D; exit 2; }
 for c in "$@"; do
   VERIF_EVID=/tmp/seed/evid_$ID VERIF_REPLAYS=/tmp/seed/evid_$ID VERIF_REPO=$D /verif/bin/check $c --tier ${TIER:-quick} > /tmp/seed/run_${ID}_$c.log 2>&1; rc=$?
   echo "SEEDRUN $ID $c rc=$rc $(grep -c '^  violation' /tmp/seed/run_${ID}_$c.log) violations; $(grep -o '"class": "[^"]*"' /tmp/seed/run_${ID}_$c.log | sort | uniq -c | sort -rn | head -4 | tr '\n' ' ')"
 done
 git checkout -q -- include src
+[ $TEMP = 1 ] && git -C /repo worktree remove --force $D
+exit 0
